@@ -181,6 +181,8 @@ struct Outcome {
 	consumer: Vec<Vec<(u64, u64)>>, // one vector for collect, chunks for for_each_buffered
 	stalled: Option<String>,
 	bad_choice: bool,
+	/// the operator / consumer under test panicked (message)
+	panicked: Option<String>,
 }
 
 /// Runs one schedule on the real operator. `items` = (coord id, arg).
@@ -309,7 +311,9 @@ fn execute(rt: &tokio::runtime::Runtime, op: Op, window: usize, k: Option<usize>
 	};
 
 	let big: usize = if len <= 100 { 70_000 } else { 200 };
-	let consumer: Vec<Vec<(u64, u64)>> = rt.block_on(async {
+	// every call into the code under test runs under catch_unwind: a panic is an outcome, not the end of the harness
+	let gate_p = gate.clone();
+	let run = catch(|| rt.block_on(async {
 		let g1 = gate.clone();
 		let cb_idx = idx_of.clone();
 		let stream = match op {
@@ -350,10 +354,19 @@ fn execute(rt: &tokio::runtime::Runtime, op: Op, window: usize, k: Option<usize>
 				chunks
 			}
 		}
-	});
+	}));
+	let (consumer, panicked) = match run {
+		Ok(c) => (c, None),
+		Err(m) => {
+			// open the gate so that the callbacks and the controller come to an end
+			let g = gate_p.m.lock().unwrap_or_else(|e| e.into_inner());
+			gate_p.abort(g);
+			(vec![], Some(m))
+		}
+	};
 	let (choices, stalled, bad_choice) = ctl.join().unwrap();
-	let tap = gate.m.lock().unwrap().tap.clone();
-	Outcome { choices, tap, consumer, stalled, bad_choice }
+	let tap = gate.m.lock().unwrap_or_else(|e| e.into_inner()).tap.clone();
+	Outcome { choices, tap, consumer, stalled: if panicked.is_some() { None } else { stalled }, bad_choice, panicked }
 }
 
 fn show_seq(v: &[(u64, u64)]) -> String {
@@ -414,7 +427,9 @@ fn run_case(cx: &mut Ctx, op: Op, want_window: usize, k: Option<usize>, items: &
 	let its = if items.is_empty() { "-".to_string() } else { items.iter().map(|(c, a)| format!("{c}:{a}")).collect::<Vec<_>>().join(",") };
 	let kk = k.map_or("c".to_string(), |k| k.to_string());
 	let line = format!("C14 {} {} {} {} {}", op.name(), window, kk, its, show_list(&o.choices));
-	let impl_line = if o.bad_choice {
+	let impl_line = if o.panicked.is_some() {
+		"panicked".to_string()
+	} else if o.bad_choice {
 		"bad-choice".to_string()
 	} else if let Some(m) = &o.stalled {
 		STALLS.fetch_add(1, std::sync::atomic::Ordering::SeqCst);
@@ -456,6 +471,12 @@ fn run_case(cx: &mut Ctx, op: Op, want_window: usize, k: Option<usize>, items: &
 	// unordered delivery) no longer describes the code: they show up as a differing impl line, not as
 	// an oracle failure. After a stall the gate is opened and the stream drains, so the laws below
 	// are still judged on the complete output.
+	if let Some(m) = &o.panicked {
+		// total callbacks, valid parameters: the stream must not panic (for_each_buffered accepts every buffer size)
+		let msg = format!("the stream / consumer panicked: {}", trunc(m, 200));
+		cx.out.oracle(false, &format!("C14 panic: {msg}"), json!({"kind": "panic", "op": op.name(), "consumer": if k.is_some() { "buffered" } else { "collect" }, "k_zero": k == Some(0), "k_max": k == Some(usize::MAX)}), detail(msg.clone()));
+		return;
+	}
 	if o.bad_choice {
 		cx.out.oracle(true, "", json!(null), json!(null));
 		return;
@@ -573,7 +594,9 @@ fn converter_cases(cx: &mut Ctx, rng: &mut Rng, thorough: bool, replay: Option<&
 	use versatiles_container::tile_converter::TileConverter;
 	use versatiles_core::types::TileCompression::*;
 	let comps = [Uncompressed, Gzip, Brotli];
-	let faults = ["none", "truncated", "garbage", "empty", "other-codec", "raw-in-compressed"];
+	// "memo": no corrupt tile, but one or two LARGE (slow) payloads among long runs of IDENTICAL small ones and
+	// alternating A,B pairs – results must not travel between coordinates (shared state between worker tasks)
+	let faults = ["none", "truncated", "garbage", "empty", "other-codec", "raw-in-compressed", "memo", "memo"];
 	let mut plan: Vec<(versatiles_core::types::TileCompression, versatiles_core::types::TileCompression, bool, String, usize, usize, u64)> = vec![];
 	if let Some(t) = replay {
 		plan.push((comp_parse(t[1]), comp_parse(t[2]), t[3] == "1", t[4].to_string(), t[5].parse().unwrap(), t[6].parse().unwrap(), t[7].parse().unwrap()));
@@ -583,7 +606,7 @@ fn converter_cases(cx: &mut Ctx, rng: &mut Rng, thorough: bool, replay: Option<&
 				for force in [false, true] {
 					for fault in faults {
 						for _ in 0..if thorough { 4 } else { 1 } {
-							let n = rng.range(2, if thorough { 300 } else { 60 }) as usize;
+							let n = if fault == "memo" { rng.range(3000, if thorough { 12000 } else { 5000 }) as usize } else { rng.range(2, if thorough { 300 } else { 60 }) as usize };
 							plan.push((src, dst, force, fault.to_string(), n, rng.below(n as u64) as usize, rng.next() % 1_000_000));
 						}
 					}
@@ -593,11 +616,24 @@ fn converter_cases(cx: &mut Ctx, rng: &mut Rng, thorough: bool, replay: Option<&
 	}
 	for (src, dst, force, fault, n, j, seed) in plan {
 		let mut r = Rng::new(seed);
-		let contents: Vec<Vec<u8>> = (0..n).map(|i| if i % 7 == 3 { vec![] } else { let l = r.below(300) as usize; r.bytes(l) }).collect();
-		let mut inputs: Vec<(TileCoord3, Blob)> = contents.iter().enumerate().map(|(i, c)| (coord_of(i as u64 / 2), Blob::from(enc(&src, c)))).collect();
+		let contents: Vec<Vec<u8>> = if fault == "memo" {
+			let small = r.bytes(120);
+			let (a, b) = (r.bytes(90), r.bytes(91));
+			let big: Vec<usize> = vec![20_000 + r.below(60_000) as usize, 100_000 + r.below(300_000) as usize, 5_000 + r.below(20_000) as usize];
+			(0..n)
+				.map(|i| {
+					if i == 0 { r.bytes(big[0]) } else if i == n / 3 { r.bytes(big[1]) } else if i == n / 2 + j % 50 { r.bytes(big[2]) }
+					else if i < 2 * n / 3 { small.clone() } else if i % 2 == 0 { a.clone() } else { b.clone() }
+				})
+				.collect()
+		} else {
+			(0..n).map(|i| if i % 7 == 3 { vec![] } else { let l = r.below(300) as usize; r.bytes(l) }).collect()
+		};
+		let unique_coords = fault == "memo";
+		let mut inputs: Vec<(TileCoord3, Blob)> = contents.iter().enumerate().map(|(i, c)| (coord_of(if unique_coords { i as u64 } else { i as u64 / 2 }), Blob::from(enc(&src, c)))).collect();
 		let good = enc(&src, &contents[j]);
 		let bad: Option<Vec<u8>> = match fault.as_str() {
-			"none" => None,
+			"none" | "memo" => None,
 			"truncated" => Some(good[..good.len() / 2].to_vec()),
 			"garbage" => Some(r.bytes(40)),
 			"empty" => Some(vec![]),
@@ -650,13 +686,21 @@ fn converter_cases(cx: &mut Ctx, rng: &mut Rng, thorough: bool, replay: Option<&
 					let mut g: Vec<(u64, Vec<u8>)> = got.iter().map(|(c, p)| (*c, p.clone().unwrap_or_else(|| b"<undecodable>".to_vec()))).collect();
 					w.sort();
 					g.sort();
-					for x in &w {
+					if unique_coords {
+						// one output per coordinate: compare position by position
+						if let Some((x, y)) = w.iter().zip(g.iter()).find(|(x, y)| x != y) {
+							verdict = Some(("map_wrong_pair", if x.0 == y.0 { format!("the output for coordinate id {} does not decode to that coordinate's input ({} bytes expected, {} delivered)", x.0, x.1.len(), y.1.len()) } else { format!("coordinate id {} expected, {} delivered", x.0, y.0) }));
+						}
+						g.clear();
+						if verdict.is_none() && w.len() != outv.len() { verdict = Some(("map_wrong_pair", "surplus outputs".into())); }
+					}
+					for x in w.iter().filter(|_| !unique_coords) {
 						if let Some(pos) = g.iter().position(|y| y == x) { g.remove(pos); } else {
 							verdict = Some(("map_wrong_pair", format!("no output carries coordinate id {} with its own content", x.0)));
 							break;
 						}
 					}
-					if verdict.is_none() && g.len() != usize::from(bad_out_ok) {
+					if verdict.is_none() && !unique_coords && g.len() != usize::from(bad_out_ok) {
 						verdict = Some(("map_wrong_pair", "surplus outputs".into()));
 					}
 				}
@@ -724,8 +768,15 @@ fn seq_cases(cx: &mut Ctx, rng: &mut Rng, replay: Option<&[&str]>) {
 	let parse_items = |s: &str| -> Vec<(u64, u64)> { if s == "-" { vec![] } else { s.split(',').map(|x| { let (c, a) = x.split_once(':').unwrap(); (c.parse().unwrap(), a.parse().unwrap()) }).collect() } };
 	let mut plan: Vec<(String, String)> = vec![];
 	if let Some(t) = replay {
-		plan.push((t[1].to_string(), t[2].to_string()));
+		if t.len() == 4 { plan.push((format!("{} {}", t[1], t[2]), t[3].to_string())); } else { plan.push((t[1].to_string(), t[2].to_string())); }
 	} else {
+		// for_each_buffered on a plain stream: every buffer size class (0, 1, len-1, len, len+1, usize::MAX)
+		for len in [0usize, 1, 2, 7, 40] {
+			for k in [0usize, 1, 2, len.saturating_sub(1), len, len + 1, usize::MAX] {
+				let items: Vec<(u64, u64)> = (0..len).map(|_| (rng.below(30), 1 + rng.below(1000))).collect();
+				plan.push((format!("buffered {k}"), show_items(&items)));
+			}
+		}
 		for comb in ["collect", "next", "sync", "async", "mapcoord", "vecasync", "count", "flatten"] {
 			for len in [0usize, 1, 2, 7, 40, 300] {
 				let mk = |rng: &mut Rng, n: usize| -> Vec<(u64, u64)> { (0..n).map(|_| (rng.below(30), 1 + rng.below(1000))).collect() };
@@ -742,7 +793,16 @@ fn seq_cases(cx: &mut Ctx, rng: &mut Rng, replay: Option<&[&str]>) {
 	let conv = |v: Vec<(TileCoord3, Blob)>| v.iter().map(|(c, b)| (id_of(c), val_of(b))).collect::<Vec<_>>();
 	for (comb, arg) in plan {
 		let rt = cx.rt;
-		let res: String = match comb.as_str() {
+		let res: Result<String, String> = catch(|| match comb.as_str() {
+			c if c.starts_with("buffered ") => {
+				let k: usize = c[9..].parse().unwrap();
+				let items = parse_items(&arg);
+				rt.block_on(async {
+					let mut chunks: Vec<String> = vec![];
+					to_stream(&items).for_each_buffered(k, |ch| chunks.push(show_seq(&conv(ch)))).await;
+					if chunks.is_empty() { "-".to_string() } else { chunks.join("|") }
+				})
+			}
 			"flatten" => {
 				let groups: Vec<Vec<(u64, u64)>> = arg.split('|').map(|g| parse_items(g)).collect();
 				rt.block_on(async {
@@ -781,10 +841,15 @@ fn seq_cases(cx: &mut Ctx, rng: &mut Rng, replay: Option<&[&str]>) {
 					}
 				})
 			}
-		};
-		cx.out.case(&format!("C14s {comb} {arg}"), &res, arg != "-");
-		cx.out.count(&format!("seq_{comb}"));
-		cx.out.oracle(true, "", json!(null), json!(null));
+		});
+		let case = format!("C14s {comb} {arg}");
+		let line = match &res { Ok(r) => r.clone(), Err(_) => "panicked".to_string() };
+		cx.out.case(&case, &line, arg != "-");
+		cx.out.count(&format!("seq_{}", comb.split(' ').next().unwrap()));
+		match res {
+			Ok(_) => cx.out.oracle(true, "", json!(null), json!(null)),
+			Err(m) => cx.out.oracle(false, &format!("C14 panic: sequential combinator `{comb}` panicked: {}", trunc(&m, 160)), json!({"kind": "panic", "combinator": comb.split(' ').next().unwrap(), "k_max": comb.ends_with(&usize::MAX.to_string())}), json!({"case": case, "message": m})),
+		}
 	}
 }
 
@@ -884,7 +949,7 @@ fn all_digit_vectors(len: usize, window: usize) -> Vec<Vec<usize>> {
 pub fn run(args: &Args) {
 	quiet_panics();
 	let mut out = Out::new(&args.out);
-	out.rule = "real TileStream::{map_blob_parallel, filter_map_blob_parallel, from_coord_iter_parallel} (+ collect / for_each_buffered k) on a 24-worker tokio runtime with gate-controlled callbacks: the controller releases one started item at a time and the released result must pass a tap before the next release; window = num_cpus::get() varied through thread CPU affinity; ALL completion orders (all digit vectors d[i] < min(window, len-i)) for len ≤ 6 (thorough ≤ 7) at the full window and for small windows, plus reverse/rotate/interleave/seeded-random orders for streams of 10^2..10^4 items, straggler schedules (first / middle / last item held back), stream lengths window-1..window+2 at concurrency limits 1, 2 and the full window, bursts (several releases at once, oracle only), chunk sizes len-1 / len / len+1, callbacks that panic on the first / middle / last item (must fail loudly), streams dropped after partial consumption, a stream mapped twice, the sequential combinators (stream C14s), and TileConverter::new_tile_recompressor(src,dst,force).process_stream for all 18 configurations over streams with one truncated/garbage/empty/other-codec/uncompressed tile among valid ones (loud failure or exactly one output per input); non-trivial = the completion order differs from the submission order; distinct by case text".into();
+	out.rule = "real TileStream::{map_blob_parallel, filter_map_blob_parallel, from_coord_iter_parallel} (+ collect / for_each_buffered k) on a 24-worker tokio runtime with gate-controlled callbacks: the controller releases one started item at a time and the released result must pass a tap before the next release; window = num_cpus::get() varied through thread CPU affinity; ALL completion orders (all digit vectors d[i] < min(window, len-i)) for len ≤ 6 (thorough ≤ 7) at the full window and for small windows, plus reverse/rotate/interleave/seeded-random orders for streams of 10^2..10^4 items, straggler schedules (first / middle / last item held back), stream lengths window-1..window+2 at concurrency limits 1, 2 and the full window, bursts (several releases at once, oracle only), chunk sizes len-1 / len / len+1, callbacks that panic on the first / middle / last item (must fail loudly), streams dropped after partial consumption, a stream mapped twice, the sequential combinators (stream C14s), and TileConverter::new_tile_recompressor(src,dst,force).process_stream for all 18 configurations over streams with one truncated/garbage/empty/other-codec/uncompressed tile among valid ones (loud failure or exactly one output per input) and over streams of 3000-5000 tiles mixing large slow payloads with runs of identical small ones and alternating pairs (every coordinate must decode to its own input); non-trivial = the completion order differs from the submission order; distinct by case text".into();
 	let aff = Affinity::new();
 	// worker threads are created now, with the unrestricted affinity
 	let rt = tokio::runtime::Builder::new_multi_thread().worker_threads(24).enable_all().build().unwrap();
@@ -894,7 +959,7 @@ pub fn run(args: &Args) {
 	if let Some(p) = &args.replay {
 		for line in std::fs::read_to_string(p).unwrap().lines() {
 			let t: Vec<&str> = line.split(' ').collect();
-			if t.len() == 3 && t[0] == "C14s" {
+			if (t.len() == 3 || t.len() == 4) && t[0] == "C14s" {
 				seq_cases(&mut cx, &mut Rng::new(0), Some(&t));
 				continue;
 			}
@@ -929,7 +994,7 @@ pub fn run(args: &Args) {
 		for len in 0..=max_len {
 			let items = gen_items(&mut rng, op, len);
 			for (ci, d) in all_digit_vectors(len, full).into_iter().enumerate() {
-				let k = match ci % 7 { 0 => None, 1 => Some(2), 2 => Some(0), 3 => Some(len.max(1)), 4 => Some(len + 1), 5 => Some(len.saturating_sub(1)), _ => Some(1) };
+				let k = match ci % 8 { 0 => None, 1 => Some(2), 2 => Some(0), 3 => Some(len.max(1)), 4 => Some(len + 1), 5 => Some(len.saturating_sub(1)), 6 => Some(usize::MAX), _ => Some(1) };
 				run_case(&mut cx, op, full, k, &items, Strategy::Digits(d));
 			}
 		}
@@ -938,7 +1003,7 @@ pub fn run(args: &Args) {
 			for len in [3usize, 5, 6, if args.thorough() { 8 } else { 7 }] {
 				let items = gen_items(&mut rng, op, len);
 				for (ci, d) in all_digit_vectors(len, window).into_iter().enumerate() {
-					let k = match ci % 3 { 0 => None, 1 => Some(3), _ => Some(1) };
+					let k = match ci % 6 { 0 => None, 1 => Some(3), 2 => Some(1), 3 => Some(0), 4 => Some(usize::MAX), _ => Some(len + 1) };
 					run_case(&mut cx, op, window, k, &items, Strategy::Digits(d));
 				}
 			}
@@ -985,7 +1050,7 @@ pub fn run(args: &Args) {
 				];
 				for st in fams {
 					let items = gen_items(&mut rng, op, len);
-					let k = match rng.below(5) { 0 => None, 1 => Some(len), 2 => Some(len + 1), 3 => Some(len.saturating_sub(1)), _ => Some(3) };
+					let k = match rng.below(8) { 0 => None, 1 => Some(len), 2 => Some(len + 1), 3 => Some(len.saturating_sub(1)), 4 => Some(0), 5 => Some(1), 6 => Some(usize::MAX), _ => Some(3) };
 					run_case(&mut cx, op, window, k, &items, st);
 				}
 			}
